@@ -40,7 +40,6 @@ DROPPED_OK = [
 STORE_ERR = 'db::DbInner::store_err'
 # unwrap/expect on an error-carrying Result
 UNWRAP_OK = [
-    ('compress::lz4::Lz4::compress', r'lz4::block::compress$', 'compressing into a freshly sized Vec cannot fail (no I/O)'),
     ('compress::snappy::Snappy::compress', r'Write::write_all$', 'writing into an in-memory Vec cannot fail (no I/O)'),
     ('db::DbInner::get_tree', r'DbInner::get$', 'existence test of the tree root; get fails only with Corruption/Compression of stored data (no try_io! on the mmap read path)'),
     ('db::IndexedChangeSet::write_plan', r'DbInner::get_tree$', 'get_tree is called with check_existence=false: its only error is InvalidConfiguration for a non-multitree/btree column, excluded when the change was accepted'),
